@@ -3,6 +3,7 @@ import ast
 
 from .. import util
 from ..interp import Interp, Path, show, subterms, strip_sites, NONE
+from .. import slots
 from ..report import Undecided
 
 LINE = "cobald.monitor.format_line:line_protocol"
@@ -376,8 +377,34 @@ def analyse_output(chk, name, fi, o, label, tag_is_str, field_is_str, ts, seen, 
 SELF = ("sym", "self")
 
 
+def line_slots(prog):
+    cls = prog.cls(LINE_FMT)
+    return {
+        "resolution": slots.attr_from_param(prog, cls, "resolution"),
+        "defaults": slots.attr_from_expr(prog, cls, lambda v, t: "Mapping" in t and "tags" in t and "set(" not in t, "default tags"),
+        "whitelist": slots.attr_from_expr(prog, cls, lambda v, t: t.startswith("set(tags)") or t.startswith("set(tags.keys())"), "tag whitelist"),
+        "blacklist": slots.attr_from_expr(prog, cls, lambda v, t: "RECORD_ATTRIBUTES" in t, "field blacklist"),
+    }
+
+
+def json_slots(prog):
+    cls = prog.cls(JSON_FMT)
+    fmt = prog.lookup_method(cls, "format")
+    add_time = None
+    for n in ast.walk(fmt.node):
+        if isinstance(n, ast.If) and any(isinstance(x, ast.Subscript) and isinstance(x.ctx, ast.Store) and isinstance(x.slice, ast.Constant) and x.slice.value == "time" for b in n.body for x in ast.walk(b)):
+            t = n.test
+            if isinstance(t, ast.Attribute) and isinstance(t.value, ast.Name) and t.value.id == "self":
+                add_time = t.attr
+    return {
+        "defaults": slots.attr_from_expr(prog, cls, lambda v, t: "fmt" in t and "datefmt" not in t, "default data"),
+        "add_time": add_time or "_add_time",
+    }
+
+
 def line_formatter_rules(chk):
     prog = chk.program
+    LS = line_slots(prog)
     cls = prog.cls(LINE_FMT)
     fmt = prog.lookup_method(cls, "format")
     init = prog.lookup_method(cls, "__init__")
@@ -398,7 +425,7 @@ def line_formatter_rules(chk):
     for res_none in (False, True):
 
         def decide2(it, path, term, res_none=res_none):
-            if term == ("isnone", ("attr", SELF, "_resolution")):
+            if term == ("isnone", ("attr", SELF, LS["resolution"])):
                 return res_none
             return decide(it, path, term)
 
@@ -437,8 +464,8 @@ def line_formatter_rules(chk):
                     ok = False
                     continue
                 key, value = [b for b in binds if b[2] == 0][0], [b for b in binds if b[2] == 1][0]
-                W = o.path.facts.get(("cmp", "in", key, ("attr", SELF, "_tags_whitelist")))
-                B = o.path.facts.get(("cmp", "in", key, ("attr", SELF, "_fields_blacklist")))
+                W = o.path.facts.get(("cmp", "in", key, ("attr", SELF, LS["whitelist"])))
+                B = o.path.facts.get(("cmp", "in", key, ("attr", SELF, LS["blacklist"])))
                 to_tags = [e for e in evs if e[0] == "store" and e[1] == ("sub", tags, key)]
                 to_fields = [e for e in evs if e[0] == "store" and e[1] == ("sub", fields, key)]
                 dest = "tags" if to_tags else ("fields" if to_fields else "dropped")
@@ -452,8 +479,8 @@ def line_formatter_rules(chk):
                 elif dest != want:
                     chk.bad(rule, name, "a record key that is %s the whitelist and %s the blacklist goes to %s (required: %s)" % ("in" if W else "not in", "in" if B else "not in", dest, want), node=fmt.node, stmt="split-decision", input="whitelist %s, blacklist %s" % (W, B))
                     ok = False
-                if not (tags is not None and tags[0] == "call" and tags[1][0] == "attr" and tags[1][2] == "copy" and tags[1][1] == ("attr", SELF, "_default_tags")):
-                    if tags == ("attr", SELF, "_default_tags"):
+                if not (tags is not None and tags[0] == "call" and tags[1][0] == "attr" and tags[1][2] == "copy" and tags[1][1] == ("attr", SELF, LS["defaults"])):
+                    if tags == ("attr", SELF, LS["defaults"]):
                         chk.bad(rule, name, "the formatter's shared default-tag mapping itself is used as the record's tags: tag values of one record leak into the defaults of all later records", node=fmt.node, stmt="default-tags-not-copied")
                     else:
                         chk.undecided(rule, name, "tags do not start from a copy of the default tags: %s" % show(tags), node=fmt.node)
@@ -463,7 +490,7 @@ def line_formatter_rules(chk):
                 # O17.4 timestamp term (same as below)
                 tsv = kw.get("timestamp")
                 created = ("attr", ("sym", "record"), "created")
-                res = ("attr", SELF, "_resolution")
+                res = ("attr", SELF, LS["resolution"])
                 want_ts = ("binop", "*", ("binop", "//", created, res), res)
                 alt_ts = ("binop", "-", created, ("binop", "%", created, res))
                 if res_none and tsv != NONE:
@@ -475,11 +502,11 @@ def line_formatter_rules(chk):
                 continue
             upd = [e for e in evs if e[0] == "call" and e[1][1][0] == "attr" and e[1][1][2] == "update" and e[1][1][1] == tags]
             tags_ok = False
-            if tags is not None and tags[0] == "call" and tags[1][0] == "attr" and tags[1][2] == "copy" and tags[1][1] == ("attr", SELF, "_default_tags") and len(upd) == 1:
+            if tags is not None and tags[0] == "call" and tags[1][0] == "attr" and tags[1][2] == "copy" and tags[1][1] == ("attr", SELF, LS["defaults"]) and len(upd) == 1:
                 comp = upd[0][1][2][0] if upd[0][1][2] else None
                 if comp and comp[0] == "comp" and comp[1] == "dict":
                     conds = [c for g in comp[3] for c in g[2]]
-                    if len(conds) == 1 and conds[0][0] == "cmp" and conds[0][1] == "in" and conds[0][3] == ("attr", SELF, "_tags_whitelist"):
+                    if len(conds) == 1 and conds[0][0] == "cmp" and conds[0][1] == "in" and conds[0][3] == ("attr", SELF, LS["whitelist"]):
                         tags_ok = True
                     elif len(conds) == 1 and conds[0][0] == "cmp" and conds[0][1] == "not in":
                         chk.bad(rule, name, "tags are the record keys NOT in the whitelist", node=fmt.node, stmt="tags-inverted")
@@ -491,13 +518,13 @@ def line_formatter_rules(chk):
             elif tags is not None and tags[0] == "dict":
                 # {**defaults, **record} merge: defaults first
                 srcs = [show(v) for k, v in tags[1] if k is None]
-                if len(srcs) == 2 and "_default_tags" in srcs[0]:
+                if len(srcs) == 2 and LS["defaults"] in srcs[0]:
                     tags_ok = True
-                elif len(srcs) == 2 and "_default_tags" in srcs[1]:
+                elif len(srcs) == 2 and LS["defaults"] in srcs[1]:
                     chk.bad(rule, name, "default tags override the record's values (merge order)", node=fmt.node, stmt="tags-order")
                     ok = False
                     tags_ok = True
-            if not tags_ok and tags == ("attr", SELF, "_default_tags"):
+            if not tags_ok and tags == ("attr", SELF, LS["defaults"]):
                 muts = [e for e in evs if (e[0] == "store" and e[1][0] == "sub" and e[1][1] == tags) or (e[0] == "call" and e[1][1][0] == "attr" and e[1][1][1] == tags and e[1][1][2] in ("update", "setdefault", "pop", "clear"))]
                 chk.bad(
                     rule,
@@ -510,7 +537,7 @@ def line_formatter_rules(chk):
                 tags_ok = True
             if not tags_ok:
                 # known-bad: record first, defaults applied over it
-                if tags is not None and any(e[1][2] and show(e[1][2][0]).endswith("_default_tags") for e in upd):
+                if tags is not None and any(e[1][2] and show(e[1][2][0]).endswith(LS["defaults"]) for e in upd):
                     chk.bad(rule, name, "default tags are applied over the record's values", node=fmt.node, stmt="tags-order")
                     ok = False
                 else:
@@ -518,7 +545,7 @@ def line_formatter_rules(chk):
                     ok = False
             if fields is not None and fields[0] == "comp" and fields[1] == "dict":
                 conds = [c for g in fields[3] for c in g[2]]
-                if not (len(conds) == 1 and conds[0][0] == "cmp" and conds[0][1] == "not in" and conds[0][3] == ("attr", SELF, "_fields_blacklist")):
+                if not (len(conds) == 1 and conds[0][0] == "cmp" and conds[0][1] == "not in" and conds[0][3] == ("attr", SELF, LS["blacklist"])):
                     chk.bad(rule, name, "fields are not filtered by `key not in <whitelist + record attributes>`: %s" % [show(c) for c in conds], node=fmt.node, stmt="fields-filter")
                     ok = False
             else:
@@ -527,7 +554,7 @@ def line_formatter_rules(chk):
             # O17.4 timestamp term
             tsv = kw.get("timestamp")
             created = ("attr", ("sym", "record"), "created")
-            res = ("attr", SELF, "_resolution")
+            res = ("attr", SELF, LS["resolution"])
             want = ("binop", "*", ("binop", "//", created, res), res)
             alt = ("binop", "-", created, ("binop", "%", created, res))
             if res_none:
@@ -544,9 +571,9 @@ def line_formatter_rules(chk):
     # __init__: blacklist = whitelist | record attributes
     ok_bl = False
     for st in ast.walk(init.node):
-        if isinstance(st, ast.Assign) and isinstance(st.targets[0], ast.Attribute) and st.targets[0].attr == "_fields_blacklist":
+        if isinstance(st, ast.Assign) and isinstance(st.targets[0], ast.Attribute) and st.targets[0].attr == LS["blacklist"]:
             txt = util.unparse(st.value)
-            if "_tags_whitelist" in txt and "RECORD_ATTRIBUTES" in txt and isinstance(st.value, ast.BinOp) and isinstance(st.value.op, ast.BitOr):
+            if LS["whitelist"] in txt and "RECORD_ATTRIBUTES" in txt and isinstance(st.value, ast.BinOp) and isinstance(st.value.op, ast.BitOr):
                 ok_bl = True
             else:
                 chk.bad(rule, init.qual, "the field blacklist is %s (required: whitelist united with the log-record attribute names)" % txt, node=st)
@@ -561,6 +588,7 @@ def line_formatter_rules(chk):
 
 def json_rules(chk):
     prog = chk.program
+    JS = json_slots(prog)
     cls = prog.cls(JSON_FMT)
     fmt = prog.lookup_method(cls, "format")
     rule = "O17.6"
@@ -572,7 +600,7 @@ def json_rules(chk):
     for add_time in (True, False):
 
         def decide(it, path, term, add_time=add_time):
-            if term in (("attr", SELF, "_add_time"), ("truthy", ("attr", SELF, "_add_time"))):
+            if term in (("attr", SELF, JS["add_time"]), ("truthy", ("attr", SELF, JS["add_time"]))):
                 return add_time
             if term[0] == "cmp" and term[1] == "==" and ("sym", "args") in (term[2], term[3]):
                 return False
@@ -602,8 +630,8 @@ def json_rules(chk):
                     order.append("update(args)" if (a is not None and a == argsval) else "update(%s)" % show(a))
             origin = show(data)
             want = (["time"] if add_time else []) + ["message", "update(args)"]
-            if not (data[0] == "call" and data[1][0] == "attr" and data[1][2] == "copy" and data[1][1] == ("attr", SELF, "_defaults")) and not (data[0] == "call" and data[1] == ("glob", "ext:builtins.dict")):
-                if "_defaults" in origin and "copy" not in origin:
+            if not (data[0] == "call" and data[1][0] == "attr" and data[1][2] == "copy" and data[1][1] == ("attr", SELF, JS["defaults"])) and not (data[0] == "call" and data[1] == ("glob", "ext:builtins.dict")):
+                if JS["defaults"] in origin and "copy" not in origin:
                     chk.bad(rule, name, "the record is merged into the shared defaults mapping itself (no copy): data leaks between records", node=fmt.node, stmt="defaults-not-copied")
                 else:
                     chk.undecided(rule, name, "origin of the merged mapping not recognised: %s" % origin, node=fmt.node)
@@ -624,6 +652,7 @@ def json_rules(chk):
 
 def formatter_configuration(chk):
     prog = chk.program
+    LS, JS = line_slots(prog), json_slots(prog)
     # ---- JSON: the time is added unless a false, non-None datefmt disables it
     rule = "O17.7"
     cls = prog.cls(JSON_FMT)
@@ -639,7 +668,7 @@ def formatter_configuration(chk):
                 return kind == "truthy"
             if term[0] == "call" and term[1] == ISINSTANCE:
                 return True
-            if term[0] in ("attr", "truthy") and "_defaults" in show(term):
+            if term[0] in ("attr", "truthy") and JS["defaults"] in show(term):
                 return True
             return None
 
@@ -647,7 +676,7 @@ def formatter_configuration(chk):
             chk.count()
             if o.kind not in ("normal", "return"):
                 continue
-            st = [e[2] for e in o.path.events if e[0] == "store" and e[1] == ("attr", SELF, "_add_time")]
+            st = [e[2] for e in o.path.events if e[0] == "store" and e[1] == ("attr", SELF, JS["add_time"])]
             if not st:
                 continue
             v = st[-1]
@@ -688,7 +717,7 @@ def formatter_configuration(chk):
             if any(e[0] in ("branch", "fork") and e[-1] == "forked" for e in o.path.events):
                 continue  # truthiness forks of `tags` (e.g. `tags or {}`) are explored separately
             st = {e[1][2]: strip_sites(e[2]) for e in o.path.events if e[0] == "store" and e[1][1] == SELF}
-            d, w = st.get("_default_tags"), st.get("_tags_whitelist")
+            d, w = st.get(LS["defaults"]), st.get(LS["whitelist"])
             empty = lambda x: x in (("dict", ()), ("call", ("glob", "ext:builtins.dict"), (), ()), ("call", ("glob", "ext:builtins.set"), (), ()), ("set", ()))  # noqa: E731
             want_d = TAGS if kind == "mapping" else None
             want_w = ("call", ("glob", "ext:builtins.set"), (TAGS,), ()) if kind != "none" else None
